@@ -9,7 +9,7 @@ For EACH property below you have its own worktree. In that worktree produce a sm
  (a) the repository still compiles (go build ./... in the worktree),
  (b) the existing unit tests of every package you touched still pass (go test -vet=off -count=1 ./<pkg>/ ... - actually run them and report the result),
  (c) the defect needs something specific to manifest - a particular interleaving, a crash or fault at a particular point, a multi-step sequence of operations, an unusual or boundary input, or two cooperating sites that each look fine alone - NOT something ordinary use or the first simple test would expose at once. Prefer subtle, realistic mistakes (off-by-one at a boundary, a dropped check on a rare path, a stale cache, a wrong variable, a missing reset) in the code the property is about.
-Also write a demonstration: a new Go test file named zz_demo_test.go placed in the relevant package that FAILS with your change and PASSES on the unmodified code. Verify both yourself (use `git stash` / `git stash pop` on the source change, keeping the test file).
+Also write a demonstration: a new Go test file named zz_demo_test.go placed in the relevant package that FAILS with your change and PASSES on the unmodified code. Verify both yourself. IMPORTANT: do NOT use `git stash` (the stash is shared between all worktrees of this repository and other people work in sibling worktrees at the same time); instead save your change with `git diff > /tmp/<your worktree name>_change.diff`, remove it with `git apply -R` of that file, and restore it with `git apply`.
 Deliver, for the property with id <ID> and worktree <WT>, in the directory <WT>_out/ (create it): patch.diff (the output of `git diff` for the source change only, NOT including the demo test), zz_demo_test.go (a copy of the demo test) with a first-line comment saying which package directory it belongs in, and notes.md (what the change is, what it needs in order to manifest, the exact commands you ran and their outcomes: build, package tests with the change, demo with and without the change).
 Rules: work only inside the given worktrees and their _out directories. Do not read or modify anything under /verif, /repo or /root. Leave each worktree with your source change applied. If after a serious attempt you cannot satisfy (a)-(c) for a property, say so in notes.md rather than delivering something that fails the existing tests.
 """)
